@@ -35,51 +35,120 @@ EXPR = "tx3_tir::model::v1beta0::Expression"
 P = "tx3_cardano::compile::plutus_data::"
 
 
+TAG_SPEC = [
+    # (lo, hi, tag as a*x + b, any_constructor) - the Plutus Data convention as the property states it
+    (0, 6, (1, 121), None),
+    (7, 127, (1, 1273), None),       # 1280 + (x - 7)
+    (128, None, (0, 102), (1, 0)),   # general form: tag 102 with the explicit index
+]
+VALID_CONST_TAGS = set(range(121, 128)) | set(range(1280, 1401))
+INT_TYPES = {"u8": (0, 2 ** 8 - 1), "u16": (0, 2 ** 16 - 1), "u32": (0, 2 ** 32 - 1), "u64": (0, 2 ** 64 - 1), "usize": (0, 2 ** 64 - 1),
+             "i32": (-2 ** 31, 2 ** 31 - 1), "i64": (-2 ** 63, 2 ** 63 - 1), "i128": (-2 ** 127, 2 ** 127 - 1), "u128": (0, 2 ** 128 - 1)}
+
+
 def i_constr(F, res):
-    f = F.fn(P + "constr")
-    cfg = mir.CFG(f)
-    du = mir.DefUse(f)
-    w = where(f)
-    aggs = [(bi, s) for bi, si, s in mir.stmts(f) if s["rv"]["k"] == "agg" and s["rv"].get("adt", "").endswith("::Constr") and s["rv"].get("variant") == "Constr"]
-    if not aggs:
-        raise BrokenCheck("constr no longer builds a Constr")
-    # branches whose scrutinee derives from the index parameter
-    branches = 0
-    for bi, b in enumerate(f["blocks"]):
-        if b["cleanup"] or bi not in cfg.reach or b["t"]["k"] != "switch":
+    """Every place in tx3-cardano that builds a Plutus `Constr` value: a literal tag must be one of the convention's compact
+    tags with no explicit index; a computed tag must come from a function of the constructor index whose piecewise-affine
+    summary (interval partition x affine forms, rules/piecewise.py) equals the convention on the whole domain of the index:
+    0-6 -> 121+i, 7-127 -> 1280+(i-7), above -> tag 102 with the index spelled out."""
+    from .. import piecewise as pw
+    n = 0
+    found_fn = False
+    for f in F.fns.values():
+        if f["crate"] != "tx3_cardano" or is_derive(f):
             continue
-        pl = mir.op_place(b["t"]["discr"])
-        if pl is None:
+        aggs = [(bi, s) for bi, si, s in mir.stmts(f) if s["rv"]["k"] == "agg" and s["rv"].get("adt", "").endswith("::Constr") and s["rv"].get("variant") == "Constr"
+                and "tag" in (s["rv"].get("fields") or [])]
+        if not aggs:
             continue
-        o = mir.provenance(f, du, {"l": pl["l"], "p": []})
-        def from_index(origins, depth=0):
-            for x in origins:
-                if x.kind == "arg" and x.local == 1:
-                    return True
-                if x.kind == "local" and x.rv is not None and x.rv["k"] == "binop" and depth < 4:
-                    for side in ("a", "b"):
-                        if from_index(mir.provenance(f, du, x.rv[side]), depth + 1):
-                            return True
-            return False
-        if from_index(o):
-            branches += 1
-    any_some = False
-    for bi, s in aggs:
-        rv = s["rv"]
-        idx = rv["fields"].index("any_constructor") if "any_constructor" in rv.get("fields", []) else 1
-        for o in mir.provenance(f, du, rv["ops"][idx]):
-            if o.kind == "agg" and o.rv.get("variant") == "Some":
-                any_some = True
-    key = f["path"] + "|three-piece tag mapping"
-    problems = []
-    if branches < 2:
-        problems.append("the tag does not depend on the index through at least two range tests (found %d)" % branches)
-    if not any_some:
-        problems.append("no path uses the general form (any_constructor = Some(index), tag 102)")
-    if problems:
-        res.add([finding("I-CONSTR", key, w, "constructor tag is not the standard piecewise mapping: " + "; ".join(problems))])
-    else:
-        res.add([ok("I-CONSTR", key, w, "%d range tests on the index; general form present" % branches)])
+        du = mir.DefUse(f)
+        for bi, s in aggs:
+            n += 1
+            rv = s["rv"]
+            tag_op = rv["ops"][rv["fields"].index("tag")]
+            c = mir.op_const(tag_op)
+            torg = mir.provenance(f, du, tag_op)
+            w = where(f, s["line"])
+            if c is not None or (torg and all(o.kind == "const" for o in torg)):
+                vals = {c["int"]} if c is not None else {o.const.get("int") for o in torg}
+                key = "%s|literal tag" % f["path"]
+                anyop = rv["ops"][rv["fields"].index("any_constructor")]
+                anyo = mir.provenance(f, du, anyop)
+                is_none = all(o.kind == "agg" and o.rv.get("variant") == "None" for o in anyo) if anyo else False
+                if vals <= VALID_CONST_TAGS and is_none:
+                    res.add([ok("I-CONSTR", key, w, "literal tag %s is a compact constructor tag, no explicit index" % sorted(vals))])
+                elif vals == {102} and not is_none:
+                    res.add([ok("I-CONSTR", key, w, "general form with an explicit index")])
+                else:
+                    res.add([finding("I-CONSTR", key, w, "Constr built with literal tag %s, which is not a tag of the Plutus Data convention (121-127, 1280-1400, or 102 with an explicit index)" % sorted(vals))])
+                continue
+            # computed tag: the enclosing function must be a function of one integer parameter
+            ints = [i for i in range(1, f["argc"] + 1) if f["locals"][i] in INT_TYPES]
+            key = "%s|tag as a function of the constructor index" % f["path"]
+            if len(ints) != 1:
+                res.add([assumption("I-CONSTR", key, w, "tag computed in a function without a single integer parameter: mapping not decided")])
+                continue
+            found_fn = True
+            x = ints[0]
+            lo_dom, hi_dom = INT_TYPES[f["locals"][x]]
+            try:
+                table = pw.summarize(f, x, lo_dom, hi_dom)
+            except pw.NotInFragment as e:
+                res.add([assumption("I-CONSTR", key, w, "tag mapping outside the piecewise-affine fragment (%s): not decided" % e)])
+                continue
+            problems = []
+            pieces = 0
+            for ivs, ret in table:
+                # dig the Constr aggregate out of the returned value
+                cv = _find_constr(ret)
+                for lo, hi in ivs:
+                    if hi < 0:
+                        continue
+                    lo = max(lo, 0)
+                    for slo, shi, stag, sany in TAG_SPEC:
+                        shi = hi_dom if shi is None else shi
+                        a, b2 = max(lo, slo), min(hi, shi)
+                        if a > b2:
+                            continue
+                        pieces += 1
+                        if cv is None:
+                            problems.append("for index %d..%d no Constr value is returned" % (a, b2))
+                            continue
+                        tagv = cv[3].get("tag", pw.UNKNOWN)
+                        anyv = cv[3].get("any_constructor", pw.UNKNOWN)
+                        if not pw.same_on(tagv, pw.aff(*stag), a, b2):
+                            problems.append("index %d..%d: tag is %s, the convention says %s" % (a, b2, pw.show(tagv), pw.show(pw.aff(*stag))))
+                        want_any = ("none",) if sany is None else ("some", pw.aff(*sany))
+                        if not pw.same_on(anyv, want_any, a, b2):
+                            problems.append("index %d..%d: any_constructor is %s, the convention says %s" % (a, b2, pw.show(anyv), pw.show(want_any)))
+            if problems:
+                res.add([finding("I-CONSTR", key, w, "constructor tag is not the standard Plutus Data mapping: " + "; ".join(problems[:3]))])
+            else:
+                res.add([ok("I-CONSTR", key, w, "piecewise-affine summary over %s equals the convention on %d pieces: 0-6 -> x+121, 7-127 -> x+1273, >=128 -> 102 / Some(x)" % (f["locals"][x], pieces))])
+    res.count("Constr constructions", n)
+    res.floor("Constr constructions", n, 1)
+    if not found_fn:
+        res.add([finding("I-CONSTR", "tx3_cardano|constructor function", "crates/tx3-cardano/src/compile/plutus_data.rs", "no function computes the constructor tag from the case index: alternatives above 6 cannot be encoded")])
+
+
+def _find_constr(v):
+    if not isinstance(v, tuple):
+        return None
+    if v[0] == "agg":
+        if v[1].endswith("::Constr") and "tag" in v[3]:
+            return v
+        for x in v[3].values():
+            r = _find_constr(x)
+            if r is not None:
+                return r
+    if v[0] in ("tuple",):
+        for x in v[1]:
+            r = _find_constr(x)
+            if r is not None:
+                return r
+    if v[0] == "some":
+        return _find_constr(v[1])
+    return None
 
 
 def handled_variants(F, f, self_local=1):
